@@ -158,9 +158,11 @@ Suppressed(st, ty, t) == /\ ~QuExpected(st)
 RECURSIVE SkipDue(_, _)
 SkipDue(st, t) ==
   IF ~st.active \/ st.nstart >= 4 \/ st.r < 0 \/ DueAt(st, st.nstart) >= t THEN st
-  ELSE IF Bad(\E ty \in st.types : ~Suppressed(st, ty, DueAt(st, st.nstart)), "C10_StartupSchedule") THEN Fail(st, "C10_StartupSchedule")
-  ELSE IF Bad(\E ty \in st.types : ~Suppressed(st, ty, DueAt(st, st.nstart)), "C13_NotSuppressed") THEN Fail(st, "C13_NotSuppressed")
-  ELSE SkipDue([st EXCEPT !.nstart = @ + 1, !.lastQ = DueAt(st, st.nstart)], t)
+  ELSE LET d == DueAt(st, st.nstart)
+           sh == FireHolds(st, d)            \* truncated queries whose hold ran out before that instant count, later ones do not
+       IN IF Bad(\E ty \in sh.types : ~Suppressed(sh, ty, d), "C10_StartupSchedule") THEN Fail(sh, "C10_StartupSchedule")
+          ELSE IF Bad(\E ty \in sh.types : ~Suppressed(sh, ty, d), "C13_NotSuppressed") THEN Fail(sh, "C13_NotSuppressed")
+          ELSE SkipDue([sh EXCEPT !.nstart = @ + 1, !.lastQ = d], t)
 
 Accumulate(st, e, t) ==
   [st EXCEPT !.qT = t, !.qKa = @ \cup {<<e.ka[k][1], e.ka[k][2]>> : k \in 1..Len(e.ka)},
@@ -198,7 +200,7 @@ Heard(st, e) ==
 
 Step(st0, e) ==
   IF e.ev = "start" THEN InitState
-  ELSE LET st1 == SkipDue(Pre(FireHolds(st0, e.t), e.t), e.t) IN
+  ELSE LET st1 == Pre(FireHolds(SkipDue(st0, e.t), e.t), e.t) IN
    IF st1.err # "" THEN st1
    ELSE CASE e.ev = "recv"    -> OnRecv(st1, e)
           [] e.ev = "query"   -> OnQuery(st1, e)
